@@ -92,11 +92,6 @@ def run(ck):
         ck.ob('C04.positions', label, ok, key='qartod_compare:positions', what=f'{label} gives {got}, expected {want}')
         ck.ob('C04.pure', label, [list(v.back.cells) for v in vecs] == before and not [e for e in out.events if e['kind'] == 'mutation'],
               key='qartod_compare:mutates-input', what=f'{label} modifies its input vectors')
-    # unequal lengths are rejected
-    out = r.run(qc, [[mkvec([1, 2]), mkvec([1])]])
-    ck.ob('C04.reject', 'unequal lengths', out.kind == 'raise', key='qartod_compare:unequal-lengths',
-          what='vectors of different lengths are accepted')
-
     # aggregate(): all results of its argument
     agg = r.function('ioos_qc.qartod', 'aggregate')
     R = collections.namedtuple('R', 'results')
@@ -114,8 +109,6 @@ def run(ck):
             label = f'aggregate({list(combo)} as {kind})'
             ok = out.kind == 'return' and concrete(out.value) == [([str(expected(combo))], False)]
             ck.ob('C04.aggregate', label, ok, key=f'aggregate:all-results:{kind}', what=f'{label} does not equal the roll-up of all results')
-    ck.ob('C04.aggregate', 'aggregate flag attribute', getattr(agg, 'attrs', {}).get('aggregate') is True, key='aggregate:attr',
-          what='aggregate() lost its aggregate=True marker')
 
     # PandasStore.compute_aggregate: all collected results, exactly one appended roll-up
     stores = r.interp.module('ioos_qc.stores')
